@@ -58,7 +58,10 @@ LEVEL_TEXT = ("Proof (sub-check of C20). Lean theorems (lean/BarterModel/Props/C
               "(a stopped system is in exactly the state the selected runner function returns on the channel content); commands_once_in_order, applied_in_send_order, "
               "earlier_calls_applied_before, command_sees_trading_state (every handle event reaches Engine::process at most once, in call order; a trading_state() call made "
               "before a command is applied before it); engine_is_fold, result_is_fold, result_on_shutdown, nothing_after_stop, refines_spec (shutdown()/abort() return the "
-              "built engine fed exactly the processed history: all handle events sent, in order, Shutdown last; nothing behind it is ever processed); abort_eq_shutdown "
+              "built engine fed exactly the processed history: all handle events sent, in order, Shutdown last; nothing behind it is ever processed); "
+              "drain_only_engine / no_forward_handle_only / final_segment_no_stream_events (between the user's last await and the return of shutdown()/abort() the engine "
+              "processes handle events only - the spec states `m` and `a` EMPTY in the final block, all three projections empty after a fatal stop, and `seq_off` = "
+              "sequence number minus processed events = 1 with the audit snapshot, else 0); abort_eq_shutdown "
               "(abort differs from shutdown in nothing the engine or the feed can see); audit_enabled_stream / audit_disabled_nothing / take_audit_once; "
               "audit_replica_reproduces_engine (snapshot + ticks through the C10 replica reproduce the engine, the C10 hypotheses discharged for this system); "
               "call_after_stop_panics / close_after_stop_panics / join_after_stop; streams_in_order, quiescent_everything_processed, requests_reach_exchange_in_order; "
